@@ -245,12 +245,17 @@ func vForward(requestSide bool) {
 	}
 	// hop-by-hop headers: a subset of the fixed ones, plus one named by Connection
 	// one of the fixed hop-by-hop headers, or all of them
+	// (their values include the ones other proxies treat specially, e.g. "TE: trailers")
+	hopValue := "x"
+	if requestSide {
+		hopValue = []string{"x", "trailers", "gzip, trailers"}[verifChoose("req.hopHeaderValue", 3)]
+	}
 	if k := verifChoose("req.hopHeader", len(vHop)); k == 0 {
 		for _, h := range vHop[1:] {
-			std.Header[h] = []string{"x"}
+			std.Header[h] = []string{hopValue}
 		}
 	} else {
-		std.Header[vHop[k]] = []string{"x"}
+		std.Header[vHop[k]] = []string{hopValue}
 	}
 	named := requestSide && verifBool("req.connectionNamesHeader")
 	if named {
@@ -280,6 +285,11 @@ func vForward(requestSide bool) {
 	if !requestSide {
 		codings := []string{"", "gzip", "br", "deflate, gzip", "GZIP", "x-gzip"}
 		backendCE = codings[verifChoose("resp.contentEncoding", verifBound("contentCodings"))]
+	}
+	// the pool lists 503 among its failureCodes: a backend answer with that status is reported
+	// with result failureCode, and is still the backend's answer (status, headers, body)
+	if !requestSide {
+		sp.failureCodes[503] = struct{}{}
 	}
 	vNSends, vGzipCalls = 0, 0
 	vOutcome = func(int) (*http.Response, error) {
@@ -359,7 +369,12 @@ func vForward(requestSide bool) {
 		verifCover("response-too-large")
 		return
 	}
-	verifAssert(result == "", "well-formed-backend-response-is-not-a-proxy-error")
+	if !requestSide && status == 503 {
+		verifAssert(result == resultFailureCode, "failure-code-status-reported-as-failureCode")
+		verifCover("failure-code-response-passed-on")
+	} else {
+		verifAssert(result == "", "well-formed-backend-response-is-not-a-proxy-error")
+	}
 	verifAssert(resp.StatusCode() == status, "client-gets-backend-status")
 	verifAssert(resp.HTTPHeader().Get("X-Backend") == "b", "client-gets-backend-headers")
 	got, _ := io.ReadAll(resp.GetPayload())
